@@ -316,7 +316,7 @@ func (e BridgeEngine) genKind(r *Run, kind string) (Step, bool) {
 			}
 		}
 		return Step{Kind: "ext", A: A("chain", c.Name, "op", "bridge_call", "symbols", strings.Join(syms, ","), "amounts", strings.Join(amts, ","), "user", r.Rng.IntN(st.NUsers), "to", to.Hex(),
-			"data", []string{"", "", "00", "1234"}[r.Rng.IntN(4)], "memo", []string{"", "", "00", "0011"}[r.Rng.IntN(4)], "value", []int{0, 0, 100, 1000, 12}[r.Rng.IntN(5)])}, true
+			"data", []string{"", "", "00", "1234"}[r.Rng.IntN(4)], "memo", []string{"", "", "00", "0011", "010000", "0000000000000000000000000000000000000000000000000000000000010000"}[r.Rng.IntN(6)], "value", []int{0, 0, 100, 1000, 12}[r.Rng.IntN(5)])}, true
 	case "ext-height":
 		n := 1 + r.Rng.IntN(30)
 		if r.Cfg.FaultOn("ext-burst") && r.Pct(20) {
@@ -670,7 +670,7 @@ func (e BridgeEngine) variantFor(r *Run, c *ChainSt, ev *ExtEvent) (string, stri
 		}
 	}
 	if r.Pct(30) {
-		// another spelling of a routing target
+		// another spelling of a routing target, another zero-padding of a hex field
 		type fv struct{ f, v string }
 		var ok []fv
 		for _, f := range fields {
@@ -678,6 +678,12 @@ func (e BridgeEngine) variantFor(r *Run, c *ChainSt, ev *ExtEvent) (string, stri
 				cl := c.buildClaim(w, ev, c.bridgerKey(w, 0).Bech(), "")
 				if mutateClaim(cl, "alias:"+f, fmt.Sprint(k)) == nil && safeValidate(cl) == nil {
 					ok = append(ok, fv{"alias:" + f, fmt.Sprint(k)})
+				}
+			}
+			for k := 0; k < 3; k++ {
+				cl := c.buildClaim(w, ev, c.bridgerKey(w, 0).Bech(), "")
+				if mutateClaim(cl, "pad:"+f, fmt.Sprint(k)) == nil && safeValidate(cl) == nil {
+					ok = append(ok, fv{"pad:" + f, fmt.Sprint(k)})
 				}
 			}
 		}
